@@ -126,7 +126,14 @@ func (l *Loader) loadParsed(path string, file parsedFile, visited map[string]boo
 	var errors []LoadError
 	limits := l.getLimits()
 
-	if len(visited) >= limits.MaxIncludeDepth {
+	// The limit bounds the nesting depth: the number of files currently being included, not the number of files seen.
+	depth := 0
+	for _, including := range visited {
+		if including {
+			depth++
+		}
+	}
+	if depth >= limits.MaxIncludeDepth {
 		return nil, []LoadError{{
 			Kind:    ErrorCycleDetected,
 			Path:    path,
